@@ -1,13 +1,20 @@
 (** Model of util/netutil/filter.go (IPv4Filter), function by function, as the code is
     now (Contains normalises its argument with To4).  No proofs here.
 
+    Go's run-time panics are outcomes of the model: every function that indexes an array,
+    a slice or writes a map returns an [option], [None] = the goroutine panics
+    (index out of range for [ipv4Masks[ones-1]], [ipList[i]], [ipMaps[ones-1]],
+    [binary.BigEndian.Uint32] of a short slice; assignment to an entry of a nil map).
+    That no call ever panics is a theorem (C11_no_panic, C12_no_crash), not an assumption.
+
     Go                                   model
     f.matchAll (atomic.Bool)             match_all
     f.mode == modeMaps                   mode_maps
     f.index                              index
     f.ipList [256][2]uint32              ip_list   (always 256 slots, (0,0) = unused / removed)
-    f.ipMaps [32]map[uint32]bool         ip_maps   (32 sets; a set is a duplicate-free list)
-    ipv4Masks[i]                         nth i ipv4_masks 0
+    f.ipMaps [32]map[uint32]bool         ip_maps   (32 maps; [None] = nil map, [Some l] = made map
+                                                    with the duplicate-free key list l)
+    ipv4Masks[i]                         nth_error ipv4_masks i
 
     The mutex is not part of the sequential model: [add_locked], [remove_locked] and
     [scan] are the bodies of the three critical sections; Model/FilterConc.v turns each
@@ -29,23 +36,30 @@ Definition ipv4_masks : list N :=
 
 Definition list_size : nat := 256.
 
-(** ipv4Masks[ones-1]; only ever evaluated with 1 <= ones <= 32 *)
+(** ipv4Masks[ones-1] as Go evaluates it: ones-1 = -1 (int) or 4294967295 (uint32) for
+    ones = 0 and every index above 31 panic *)
+Definition mask_at (ones : N) : option N :=
+  if ones =? 0 then None else nth_error ipv4_masks (N.to_nat (ones - 1)).
+
+(** the same table as a total function (what [mask_at] returns when it does not panic);
+    used by the proofs and by the table obligations of lib/tables.py *)
 Definition mask (ones : N) : N := nth (N.to_nat (ones - 1)) ipv4_masks 0.
+
+(** a Go map used as a set: [None] is the nil map *)
+Definition gomap := option (list N).
 
 Record state := mkSt {
   match_all : bool;
   mode_maps : bool;
   index : nat;
   ip_list : list (N * N);
-  ip_maps : list (list N)
+  ip_maps : list gomap
 }.
 
-Definition empty_maps : list (list N) := repeat [] 32.
+(** NewIPv4Filter: the array of maps starts as 32 nil maps *)
+Definition init : state := mkSt false false 0 (repeat (0, 0) list_size) (repeat None 32).
 
-(** NewIPv4Filter *)
-Definition init : state := mkSt false false 0 (repeat (0, 0) list_size) empty_maps.
-
-(* ---- arrays and Go maps used as sets ---- *)
+(* ---- arrays and Go maps ---- *)
 
 Fixpoint upd {A} (l : list A) (i : nat) (x : A) : list A :=
   match l, i with
@@ -61,23 +75,59 @@ Fixpoint upd_f {A} (l : list A) (i : nat) (f : A -> A) : list A :=
   | h :: t, S k => h :: upd_f t k f
   end.
 
+(** a[i] = x with the bounds check *)
+Definition upd_p {A} (l : list A) (i : nat) (x : A) : option (list A) :=
+  if (i <? length l)%nat then Some (upd l i x) else None.
+
 Definition set_mem (x : N) (m : list N) : bool := existsb (N.eqb x) m.
 Definition set_add (x : N) (m : list N) : list N := if set_mem x m then m else x :: m.
 Definition set_del (x : N) (m : list N) : list N := filter (fun y => negb (y =? x)) m.
 
+Definition gm_elems (m : gomap) : list N := match m with Some l => l | None => [] end.
+(** m[x] : reading a nil map gives the zero value *)
+Definition gm_mem (x : N) (m : gomap) : bool := set_mem x (gm_elems m).
+(** m[x] = true : assignment to an entry of a nil map panics *)
+Definition gm_add (x : N) (m : gomap) : option gomap :=
+  match m with Some l => Some (Some (set_add x l)) | None => None end.
+(** delete(m, x) : a no-op on a nil map *)
+Definition gm_del (x : N) (m : gomap) : gomap :=
+  match m with Some l => Some (set_del x l) | None => None end.
+
 (** f.ipMaps[i][a] = true *)
-Definition maps_insert (maps : list (list N)) (i : nat) (a : N) : list (list N) :=
-  upd_f maps i (set_add a).
+Definition maps_insert (maps : list gomap) (i : nat) (a : N) : option (list gomap) :=
+  match nth_error maps i with
+  | None => None
+  | Some m => match gm_add a m with
+              | None => None
+              | Some m' => Some (upd maps i m')
+              end
+  end.
 (** delete(f.ipMaps[i], a) *)
-Definition maps_delete (maps : list (list N)) (i : nat) (a : N) : list (list N) :=
-  upd_f maps i (set_del a).
+Definition maps_delete (maps : list gomap) (i : nat) (a : N) : option (list gomap) :=
+  match nth_error maps i with
+  | None => None
+  | Some m => Some (upd maps i (gm_del a m))
+  end.
+
+(** for i := 0; i < len(f.ipMaps); i++ { f.ipMaps[i] = make(map[uint32]bool) } *)
+Definition made_maps (maps : list gomap) : list gomap := map (fun _ => Some []) maps.
+
+(** the slots the loops [for i := 0; i < f.index; i++ { ... f.ipList[i] ... }] visit *)
+Definition slots_upto (s : state) : option (list (N * N)) :=
+  if (index s <=? length (ip_list s))%nat then Some (firstn (index s) (ip_list s)) else None.
 
 (** the migration loop of Add: for i < index, if ipList[i][1] > 0 then
     ipMaps[ipList[i][1]-1][ipList[i][0]] = true *)
-Definition migrate_slot (maps : list (list N)) (sl : N * N) : list (list N) :=
-  if 0 <? snd sl then maps_insert maps (N.to_nat (snd sl - 1)) (fst sl) else maps.
-Definition migrate (slots : list (N * N)) (maps : list (list N)) : list (list N) :=
-  fold_left migrate_slot slots maps.
+Definition migrate_slot (maps : list gomap) (sl : N * N) : option (list gomap) :=
+  if 0 <? snd sl then maps_insert maps (N.to_nat (snd sl - 1)) (fst sl) else Some maps.
+Fixpoint migrate (slots : list (N * N)) (maps : list gomap) : option (list gomap) :=
+  match slots with
+  | [] => Some maps
+  | sl :: r => match migrate_slot maps sl with
+               | None => None
+               | Some maps' => migrate r maps'
+               end
+  end.
 
 Definition set_match_all (s : state) (b : bool) : state :=
   mkSt b (mode_maps s) (index s) (ip_list s) (ip_maps s).
@@ -89,76 +139,156 @@ Definition invalid_arg (c : cidr) : bool :=
   let '(ones, bits) := mask_size (c_mask c) in
   negb (bits =? 32) || (32 <? ones) || negb (length (c_ip c) =? 4)%nat.
 Definition arg_ones (c : cidr) : N := fst (mask_size (c_mask c)).
-Definition arg_nip (c : cidr) : N := be32 (c_ip c).
+(** nip := binary.BigEndian.Uint32(cidr.IP) *)
+Definition arg_nip (c : cidr) : option N := be32_p (c_ip c).
 
 (* ---- Add: the section between mutex.Lock() and Unlock() ---- *)
-Definition add_locked (s : state) (nip ones : N) : state :=
-  let e := N.land nip (mask ones) in
-  let k := N.to_nat (ones - 1) in
-  if mode_maps s then
-    mkSt (match_all s) true (index s) (ip_list s) (maps_insert (ip_maps s) k e)
-  else if (index s <? list_size)%nat then
-    mkSt (match_all s) false (S (index s)) (upd (ip_list s) (index s) (e, ones)) (ip_maps s)
-  else
-    let m1 := migrate (firstn (index s) (ip_list s)) empty_maps in
-    mkSt (match_all s) true (index s) (ip_list s) (maps_insert m1 k e).
+Definition add_locked (s : state) (nip ones : N) : option state :=
+  match mask_at ones with
+  | None => None
+  | Some m =>
+    let e := N.land nip m in
+    let k := N.to_nat (ones - 1) in
+    if mode_maps s then
+      match maps_insert (ip_maps s) k e with
+      | None => None
+      | Some mp => Some (mkSt (match_all s) true (index s) (ip_list s) mp)
+      end
+    else if (index s <? list_size)%nat then
+      match upd_p (ip_list s) (index s) (e, ones) with
+      | None => None
+      | Some l => Some (mkSt (match_all s) false (S (index s)) l (ip_maps s))
+      end
+    else
+      match slots_upto s with
+      | None => None
+      | Some slots =>
+        match migrate slots (made_maps (ip_maps s)) with
+        | None => None
+        | Some m1 =>
+          match maps_insert m1 k e with
+          | None => None
+          | Some mp => Some (mkSt (match_all s) true (index s) (ip_list s) mp)
+          end
+        end
+      end
+  end.
 
 (* ---- Remove: the section between mutex.Lock() and Unlock() ---- *)
 Definition zero_if (e ones : N) (sl : N * N) : N * N :=
   if (ones =? snd sl) && (e =? fst sl) then (0, 0) else sl.
 
-Definition remove_locked (s : state) (nip ones : N) : state :=
-  let e := N.land nip (mask ones) in
-  let k := N.to_nat (ones - 1) in
-  if mode_maps s then
-    mkSt (match_all s) true (index s) (ip_list s) (maps_delete (ip_maps s) k e)
-  else
-    mkSt (match_all s) false (index s)
-         (map (zero_if e ones) (firstn (index s) (ip_list s)) ++ skipn (index s) (ip_list s))
-         (ip_maps s).
+Definition remove_locked (s : state) (nip ones : N) : option state :=
+  match mask_at ones with
+  | None => None
+  | Some m =>
+    let e := N.land nip m in
+    let k := N.to_nat (ones - 1) in
+    if mode_maps s then
+      match maps_delete (ip_maps s) k e with
+      | None => None
+      | Some mp => Some (mkSt (match_all s) true (index s) (ip_list s) mp)
+      end
+    else
+      match slots_upto s with
+      | None => None
+      | Some slots =>
+        Some (mkSt (match_all s) false (index s)
+                   (map (zero_if e ones) slots ++ skipn (index s) (ip_list s)) (ip_maps s))
+      end
+  end.
 
 Inductive result := ROk | RErrInvalid.
 
-Definition add (s : state) (c : cidr) : state * result :=
-  if invalid_arg c then (s, RErrInvalid)
-  else if arg_ones c =? 0 then (set_match_all s true, ROk)
-  else (add_locked s (arg_nip c) (arg_ones c), ROk).
+Definition add (s : state) (c : cidr) : option (state * result) :=
+  if invalid_arg c then Some (s, RErrInvalid)
+  else if arg_ones c =? 0 then Some (set_match_all s true, ROk)
+  else match arg_nip c with
+       | None => None
+       | Some nip => match add_locked s nip (arg_ones c) with
+                     | None => None
+                     | Some s' => Some (s', ROk)
+                     end
+       end.
 
-Definition remove (s : state) (c : cidr) : state * result :=
-  if invalid_arg c then (s, RErrInvalid)
-  else if arg_ones c =? 0 then (set_match_all s false, ROk)
-  else (remove_locked s (arg_nip c) (arg_ones c), ROk).
+Definition remove (s : state) (c : cidr) : option (state * result) :=
+  if invalid_arg c then Some (s, RErrInvalid)
+  else if arg_ones c =? 0 then Some (set_match_all s false, ROk)
+  else match arg_nip c with
+       | None => None
+       | Some nip => match remove_locked s nip (arg_ones c) with
+                     | None => None
+                     | Some s' => Some (s', ROk)
+                     end
+       end.
 
 (* ---- Contains: the section between mutex.RLock() and RUnlock() ---- *)
-Definition scan (s : state) (nip : N) : bool :=
-  if mode_maps s then
-    existsb (fun i => set_mem (N.land nip (nth i ipv4_masks 0)) (nth i (ip_maps s) []))
-            (seq 0 32)
-  else
-    existsb (fun sl => (0 <? snd sl) && (N.land nip (mask (snd sl)) =? fst sl))
-            (firstn (index s) (ip_list s)).
 
-Definition contains (s : state) (ip : list N) : bool :=
-  if match_all s then true
+(** for i < index: if ipList[i][1] > 0 && nip&ipv4Masks[ipList[i][1]-1] == ipList[i][0] { return true } *)
+Fixpoint scan_list (nip : N) (slots : list (N * N)) : option bool :=
+  match slots with
+  | [] => Some false
+  | sl :: r =>
+      if 0 <? snd sl then
+        match mask_at (snd sl) with
+        | None => None
+        | Some m => if N.land nip m =? fst sl then Some true else scan_list nip r
+        end
+      else scan_list nip r
+  end.
+
+(** for i := 0; i < 32; i++ { if f.ipMaps[i][nip&ipv4Masks[i]] { return true } } *)
+Fixpoint scan_maps (nip : N) (maps : list gomap) (is : list nat) : option bool :=
+  match is with
+  | [] => Some false
+  | i :: r =>
+      match nth_error ipv4_masks i, nth_error maps i with
+      | Some m, Some mp => if gm_mem (N.land nip m) mp then Some true else scan_maps nip maps r
+      | _, _ => None
+      end
+  end.
+
+Definition scan (s : state) (nip : N) : option bool :=
+  if mode_maps s then scan_maps nip (ip_maps s) (seq 0 32)
+  else match slots_upto s with
+       | None => None
+       | Some slots => scan_list nip slots
+       end.
+
+Definition contains (s : state) (ip : list N) : option bool :=
+  if match_all s then Some true
   else match to4 ip with
-       | None => false
-       | Some ip4 => scan s (be32 ip4)
+       | None => Some false
+       | Some ip4 => match be32_p ip4 with
+                     | None => None
+                     | Some nip => scan s nip
+                     end
        end.
 
 (* ---- Contains at the pinned commit 8f4ffe7, before fix 6ec3904: [len(ip) != net.IPv4len] instead of
    To4, so the 16-byte form of an IPv4 address was never found.  Kept only for the refutation
    C11_pinned_refuted; nothing else uses it. ---- *)
-Definition contains_pinned (s : state) (ip : list N) : bool :=
-  if match_all s then true
-  else if negb (length ip =? 4)%nat then false
-  else scan s (be32 ip).
+Definition contains_pinned (s : state) (ip : list N) : option bool :=
+  if match_all s then Some true
+  else if negb (length ip =? 4)%nat then Some false
+  else match be32_p ip with
+       | None => None
+       | Some nip => scan s nip
+       end.
 
 (* ---- histories ---- *)
 From Glb Require Import Lib.CidrSet.
 
-Definition apply (s : state) (o : op) : state * result :=
+Definition apply (s : state) (o : op) : option (state * result) :=
   match o with Add c => add s c | Remove c => remove s c end.
 
-Definition run_from (s : state) (ops : list op) : state :=
-  fold_left (fun s o => fst (apply s o)) ops s.
-Definition run (ops : list op) : state := run_from init ops.
+(** [None]: some call of the history panicked *)
+Fixpoint run_from (s : state) (ops : list op) : option state :=
+  match ops with
+  | [] => Some s
+  | o :: r => match apply s o with
+              | None => None
+              | Some (s', _) => run_from s' r
+              end
+  end.
+Definition run (ops : list op) : option state := run_from init ops.
